@@ -1241,7 +1241,9 @@ class Irc(IrcCommandDispatcher, log.Firewalled):
         else:
             msg_tags_str = ''
             msg_rest_str = msg_str
-        if len(msg_rest_str) > MAX_LINE_SIZE:
+        # MAX_LINE_SIZE is a number of bytes on the wire, not of characters.
+        msg_rest_bytes = msg_rest_str.encode('utf-8')
+        if len(msg_rest_bytes) > MAX_LINE_SIZE:
             # Yes, this violates the contract, but at this point it doesn't
             # matter.  That's why we gotta go munging in private attributes
             #
@@ -1250,7 +1252,10 @@ class Irc(IrcCommandDispatcher, log.Firewalled):
             # this issue, there's no fundamental reason to make it a
             # warning.
             log.debug('Truncating %r, message is too long.', msg)
-            msg._str = msg_tags_str + msg_rest_str[:MAX_LINE_SIZE-2] + '\r\n'
+            # 'ignore' drops the multi-byte character the cut may fall in.
+            msg_rest_str = msg_rest_bytes[:MAX_LINE_SIZE-2].decode(
+                'utf-8', 'ignore')
+            msg._str = msg_tags_str + msg_rest_str + '\r\n'
             msg._len = len(str(msg))
         # TODO: truncate tags
 
